@@ -303,6 +303,15 @@ section_A(const Geo& g, vh::Rng& rng, int bin_stride)
         std::snprintf(k, sizeof k, "A:eff=%d%d%d%d%d", sym->using_symmetry_90degrees_min_phi(), sym->using_symmetry_180degrees_min_phi(),
                       sym->using_symmetry_swap_segment(), sym->using_symmetry_swap_s(), sym->using_symmetry_shift_z());
         histo[k]++;
+        // property statement on the implementation: a symmetry that exchanges the x and y indices of the voxels is a symmetry of
+        // the grid only if the x and y voxel sizes agree (the library's own tolerance: 2e-3 mm), whichever is the larger one
+        ++oracle_checks;
+        if (sym->using_symmetry_90degrees_min_phi() && std::fabs(g.vy - g.vx) > 2.E-3F)
+          oracle_fail("the symmetries that exchange x and y (do_symmetry_90degrees_min_phi) are in force for unequal x/y voxel sizes: flags="
+                      + std::to_string(flags) + " voxel size y=" + vh::hex(g.vy) + " x=" + vh::hex(g.vx) + " geo=[" + spec_str(g.sp) + "]");
+        if (g.vx != g.vy)
+          histo[std::string("A:voxels-") + (g.vx > g.vy ? "x>y" : "y>x") + (std::fabs(g.vy - g.vx) > 2.E-3F ? "" : "-within-guard")
+                + (sym->using_symmetry_90degrees_min_phi() ? ":xy-swap-on" : ":xy-swap-off")]++;
       }
       const int offset = bin_stride > 1 ? rng.range(0, bin_stride - 1) : 0;
       auto emit = [&](const Bin& b, const bool check_rebuild) {
@@ -963,31 +972,35 @@ probes(const Geo& elig, const Geo& nonelig, const Geo& coarse_z, const Geo& fine
 
 static std::set<std::string> data_sent; // (matrix class, geometry, rays, FOV, detector boundaries, basic bin) whose computed row has been sent to the model
 
-static void
-history(const std::vector<shared_ptr<Geo>>& geos, vh::Rng& rng, int num_events, int kind = 0)
+// one matrix object and the protocol of what is done to it (ops `pnew`, `pset`, `psetup`, `pmode`, `pclear`, `pget`)
+struct Hist
 {
-  shared_ptr<ProjMatrixByBin> pm = new_matrix(kind);
-  std::fprintf(ops, "pnew %d %d\n", kind, impl_keeps_view_symmetries_with_actual);
-  std::fprintf(out, "ok\n");
+  shared_ptr<ProjMatrixByBin> pm;
   MatrixCfg c;
-  c.kind = kind;
-  c.flags = rng.range(0, 31);
-  if (kind == 0)
-    {
-      c.ntl = rng.range(0, 3) == 0 ? 2 : 1;
-      c.actual = rng.range(0, 3) == 0;
-    }
-  const Geo* g = geos[rng.range(0, static_cast<int>(geos.size()) - 1)].get();
+  const Geo* g = nullptr;
   bool cache_enabled = true, basic_only = true;
   const char* mode = "basic";
-  auto do_pset = [&]() {
+  const char* where = "history";
+  std::vector<Bin> recent; // the last requested bins: asked again right after parameter / geometry changes
+
+  explicit Hist(int kind)
+  {
+    pm = new_matrix(kind);
+    c.kind = kind;
+    std::fprintf(ops, "pnew %d %d\n", kind, impl_keeps_view_symmetries_with_actual);
+    std::fprintf(out, "ok\n");
+  }
+  void pset()
+  {
     configure(*pm, c);
     std::fprintf(ops, "pset %s\n", pset_tokens(c).c_str());
     std::fprintf(out, "ok\n");
-  };
-  auto do_setup = [&]() -> bool {
-    if (reassert_params_before_setup[kind])
-      do_pset();
+  }
+  bool setup(const Geo* geo)
+  {
+    g = geo;
+    if (reassert_params_before_setup[c.kind])
+      pset();
     std::fprintf(ops, "psetup %d\n", g->id);
     try
       {
@@ -1000,9 +1013,89 @@ history(const std::vector<shared_ptr<Geo>>& geos, vh::Rng& rng, int num_events, 
         std::fprintf(out, "err\n");
         return false;
       }
-  };
-  do_pset();
-  if (!do_setup())
+  }
+  void set_mode(bool enabled, bool basic)
+  {
+    cache_enabled = enabled;
+    basic_only = basic;
+    pm->enable_cache(cache_enabled);
+    pm->store_only_basic_bins_in_cache(basic_only);
+    mode = !cache_enabled ? "nocache" : (basic_only ? "basic" : "full");
+    std::fprintf(ops, "pmode %d %d\n", cache_enabled ? 1 : 0, basic_only ? 1 : 0);
+    std::fprintf(out, "ok\n");
+  }
+  void clear()
+  {
+    pm->clear_cache();
+    std::fprintf(ops, "pclear\n");
+    std::fprintf(out, "ok\n");
+  }
+  bool in_range(const Bin& b) const
+  {
+    return b.segment_num() >= g->min_seg && b.segment_num() <= g->max_seg && b.view_num() >= 0 && b.view_num() < g->V
+           && b.axial_pos_num() >= g->pdi->get_min_axial_pos_num(b.segment_num())
+           && b.axial_pos_num() <= g->pdi->get_max_axial_pos_num(b.segment_num()) && b.tangential_pos_num() >= g->min_tang
+           && b.tangential_pos_num() <= g->max_tang && b.timing_pos_num() >= g->min_tof && b.timing_pos_num() <= g->max_tof;
+  }
+  // one request: the row goes to the model (exact comparison) and to the oracle (fresh matrix without symmetries and cache)
+  bool get(const Bin& b)
+  {
+    SRow r;
+    try
+      {
+        r = fetch(*pm, b);
+      }
+    catch (...)
+      {
+        std::fprintf(ops, "pget %s\n", bin_str(b).c_str());
+        std::fprintf(out, "err\n");
+        oracle_fail("get_proj_matrix_elems_for_one_bin threw for bin " + bin_str(b) + " geo=[" + spec_str(g->sp) + "]");
+        return false;
+      }
+    Bin b0 = b;
+    pm->get_symmetries_ptr()->find_basic_bin(b0);
+    std::ostringstream key;
+    key << c.kind << "/" << g->eqclass << "/" << c.ntl << "/" << c.restrict_fov << "/" << c.actual << "/" << bin_str(b0);
+    std::string data;
+    if (data_sent.insert(key.str()).second)
+      data = " data " + bin_str(b0) + " " + row_str(reference(*g, c).row(b0));
+    std::fprintf(ops, "pget %s%s\n", bin_str(b).c_str(), data.c_str());
+    std::fprintf(out, "row %s %s\n", bin_str(r.bin).c_str(), row_str(r).c_str());
+    oracle_row(*g, c, mode, b, r, where, *pm);
+    histo[std::string("B:") + (c.kind ? "interp-" : "") + "get-" + mode]++;
+    if (c.actual)
+      histo[actual_boundaries_effective(*g) ? "B:get-with-actual-boundaries" : "B:get-with-actual-boundaries(reset)"]++;
+    if (g->sp.tof_bins > 0)
+      histo["B:get-tof"]++;
+    recent.push_back(b);
+    if (recent.size() > 8)
+      recent.erase(recent.begin());
+    return true;
+  }
+  bool repeat_recent()
+  {
+    const std::vector<Bin> again = recent;
+    for (const Bin& b : again)
+      if (in_range(b) && !get(b))
+        return false;
+    return true;
+  }
+};
+
+static void
+history(const std::vector<shared_ptr<Geo>>& geos, vh::Rng& rng, int num_events, int kind = 0)
+{
+  Hist h(kind);
+  MatrixCfg& c = h.c;
+  c.flags = rng.range(0, 31);
+  if (kind == 0)
+    {
+      c.ntl = rng.range(0, 3) == 0 ? 2 : 1;
+      c.actual = rng.range(0, 3) == 0;
+    }
+  const Geo* g = geos[rng.range(0, static_cast<int>(geos.size()) - 1)].get();
+  h.pset();
+  if (!h.setup(g))
     return;
   // a pool of bins concentrated on few (segment, view) pairs and their mirror images, so that requests hit the same
   // cache buckets / basic bins again and again
@@ -1031,77 +1124,24 @@ history(const std::vector<shared_ptr<Geo>>& geos, vh::Rng& rng, int num_events, 
       }
   };
   refill();
-  std::vector<Bin> recent; // the last requested bins: asked again right after parameter / geometry changes
-  auto in_range = [&](const Bin& b) {
-    return b.segment_num() >= g->min_seg && b.segment_num() <= g->max_seg && b.view_num() >= 0 && b.view_num() < g->V
-           && b.axial_pos_num() >= g->pdi->get_min_axial_pos_num(b.segment_num())
-           && b.axial_pos_num() <= g->pdi->get_max_axial_pos_num(b.segment_num()) && b.tangential_pos_num() >= g->min_tang
-           && b.tangential_pos_num() <= g->max_tang && b.timing_pos_num() >= g->min_tof && b.timing_pos_num() <= g->max_tof;
-  };
-  auto do_get = [&](const Bin& b) -> bool {
-    SRow r;
-    try
-      {
-        r = fetch(*pm, b);
-      }
-    catch (...)
-      {
-        std::fprintf(ops, "pget %s\n", bin_str(b).c_str());
-        std::fprintf(out, "err\n");
-        oracle_fail("get_proj_matrix_elems_for_one_bin threw for bin " + bin_str(b) + " geo=[" + spec_str(g->sp) + "]");
-        return false;
-      }
-    Bin b0 = b;
-    pm->get_symmetries_ptr()->find_basic_bin(b0);
-    std::ostringstream key;
-    key << c.kind << "/" << g->eqclass << "/" << c.ntl << "/" << c.restrict_fov << "/" << c.actual << "/" << bin_str(b0);
-    std::string data;
-    if (data_sent.insert(key.str()).second)
-      data = " data " + bin_str(b0) + " " + row_str(reference(*g, c).row(b0));
-    std::fprintf(ops, "pget %s%s\n", bin_str(b).c_str(), data.c_str());
-    std::fprintf(out, "row %s %s\n", bin_str(r.bin).c_str(), row_str(r).c_str());
-    oracle_row(*g, c, mode, b, r, "history", *pm);
-    histo[std::string("B:") + (c.kind ? "interp-" : "") + "get-" + mode]++;
-    if (c.actual)
-      histo[actual_boundaries_effective(*g) ? "B:get-with-actual-boundaries" : "B:get-with-actual-boundaries(reset)"]++;
-    if (g->sp.tof_bins > 0)
-      histo["B:get-tof"]++;
-    recent.push_back(b);
-    if (recent.size() > 8)
-      recent.erase(recent.begin());
-    return true;
-  };
-  auto repeat_recent = [&]() -> bool {
-    const std::vector<Bin> again = recent;
-    for (const Bin& b : again)
-      if (in_range(b) && !do_get(b))
-        return false;
-    return true;
-  };
   for (int ev = 0; ev < num_events; ++ev)
     {
       const int what = rng.range(0, 99);
       if (what < 82)
         {
-          if (!do_get(pool[rng.range(0, static_cast<int>(pool.size()) - 1)]))
+          if (!h.get(pool[rng.range(0, static_cast<int>(pool.size()) - 1)]))
             return;
         }
       else if (what < 86)
         {
-          pm->clear_cache();
-          std::fprintf(ops, "pclear\n");
-          std::fprintf(out, "ok\n");
+          h.clear();
           histo["B:clear"]++;
         }
       else if (what < 92)
         {
-          cache_enabled = rng.range(0, 3) != 0;
-          basic_only = rng.coin();
-          pm->enable_cache(cache_enabled);
-          pm->store_only_basic_bins_in_cache(basic_only);
-          mode = !cache_enabled ? "nocache" : (basic_only ? "basic" : "full");
-          std::fprintf(ops, "pmode %d %d\n", cache_enabled ? 1 : 0, basic_only ? 1 : 0);
-          std::fprintf(out, "ok\n");
+          const bool enabled = rng.range(0, 3) != 0;
+          const bool basic = rng.coin();
+          h.set_mode(enabled, basic);
           histo["B:mode"]++;
         }
       else if (what < 96)
@@ -1117,10 +1157,10 @@ history(const std::vector<shared_ptr<Geo>>& geos, vh::Rng& rng, int num_events, 
           else if (k < 9)
             c.actual = !c.actual;
           // k == 9: "set" to the same values: set_up must be allowed to skip
-          do_pset();
-          if (!do_setup())
+          h.pset();
+          if (!h.setup(g))
             return;
-          if (!repeat_recent())
+          if (!h.repeat_recent())
             return;
           histo["B:pset+setup"]++;
         }
@@ -1128,9 +1168,9 @@ history(const std::vector<shared_ptr<Geo>>& geos, vh::Rng& rng, int num_events, 
         {
           // set up for another (or the same) geometry
           g = geos[rng.range(0, static_cast<int>(geos.size()) - 1)].get();
-          if (!do_setup())
+          if (!h.setup(g))
             return;
-          if (!repeat_recent())
+          if (!h.repeat_recent())
             return;
           refill();
           histo["B:setup-geo"]++;
@@ -1175,6 +1215,62 @@ section_E(const Geo& g1, const Geo& g2, vh::Rng& rng, int kind = 0)
       for (std::size_t i = 0; i < g2.bins.size(); ++i)
         oracle_row(g2, c, mode_name[mode], g2.bins[i], fetch(pm, g2.bins[i]), "set_up-other-index-range", pm);
       histo[kind ? "E:interp-pairs" : "E:pairs"]++;
+    }
+}
+
+// ------------------------------------------------------------------------------------------------ section F
+
+// set_up again, on ONE object, for projection data that are CONTAINED in the data of the previous set_up (or contain them):
+// ProjDataInfo::operator>= holds (index ranges of segments, axial and tangential positions fit, all else equal) but the
+// data are not equal, and with a reduced axial range the same bin numbers are other LORs (axial positions are centred on
+// the scanner).  The rows afterwards must be those of the second geometry: every request goes to the model (exact
+// comparison with the cache state machine, for which the two are different geometries) and to the oracle (a new matrix
+// set up for the second geometry alone, no symmetries, no cache).
+static void
+section_F(const std::vector<const Geo*>& chain_in, vh::Rng& rng, int kind, int first_stride)
+{
+  // (a generated reduction that changes nothing gives the same geometry again: left out)
+  std::vector<const Geo*> chain;
+  for (const Geo* g : chain_in)
+    if (chain.empty() || chain.back()->eqclass != g->eqclass)
+      chain.push_back(g);
+  if (chain.size() < 2)
+    return;
+  for (std::size_t k = 0; k + 1 < chain.size(); ++k)
+    if (!(chain[k]->image->get_voxel_size() == chain[k + 1]->image->get_voxel_size()) || !same_index_range(*chain[k], *chain[k + 1])
+        || *chain[k]->pdi == *chain[k + 1]->pdi || !(*chain[k]->pdi >= *chain[k + 1]->pdi || *chain[k + 1]->pdi >= *chain[k]->pdi))
+      {
+        std::fprintf(stderr, "c03 harness: section F pair %d,%d: not the same image with contained, unequal data (voxel %d range %d equal %d >= %d <= %d) [%s] [%s]\n", chain[k]->id, chain[k + 1]->id,
+                     chain[k]->image->get_voxel_size() == chain[k + 1]->image->get_voxel_size(), same_index_range(*chain[k], *chain[k + 1]),
+                     *chain[k]->pdi == *chain[k + 1]->pdi, *chain[k]->pdi >= *chain[k + 1]->pdi, *chain[k + 1]->pdi >= *chain[k]->pdi,
+                     spec_str(chain[k]->sp).c_str(), spec_str(chain[k + 1]->sp).c_str());
+        std::exit(3);
+      }
+  for (int mode = 0; mode < 3; ++mode)
+    {
+      Hist h(kind);
+      h.where = "set_up-contained-data";
+      h.c.flags = rng.range(0, 3) == 0 ? 31 : rng.range(0, 31);
+      if (kind == 0)
+        h.c.ntl = rng.range(0, 2) == 0 ? 2 : 1;
+      h.pset();
+      h.set_mode(mode != 0, mode == 1);
+      for (std::size_t k = 0; k < chain.size(); ++k)
+        {
+          const Geo& g = *chain[k];
+          if (!h.setup(&g))
+            {
+              oracle_fail("set_up threw for geo=[" + spec_str(g.sp) + "]");
+              return;
+            }
+          // all rows after the last set_up, a sample before
+          const std::size_t stride = k + 1 == chain.size() ? 1 : first_stride;
+          for (std::size_t i = stride > 1 ? rng.range(0, static_cast<int>(stride) - 1) : 0; i < g.bins.size(); i += stride)
+            if (!h.get(g.bins[i]))
+              return;
+          if (k > 0)
+            histo[std::string(kind ? "F:interp-" : "F:") + (*chain[k - 1]->pdi >= *g.pdi ? "set_up-for-contained-data-" : "set_up-for-containing-data-") + h.mode]++;
+        }
     }
 }
 
@@ -1377,6 +1473,46 @@ main(int argc, char** argv)
   for (int k = 0; k < nrandom_full; ++k)
     full.push_back(build_geo(random_spec(rng, !thorough), next_id++));
 
+  // x/y voxel sizes that differ in EITHER direction, by amounts on both sides of the threshold (2e-3 mm) of the
+  // constructor's guard, on data for which the x/y-swapping symmetries can be in force: no view offset (no intrinsic tilt,
+  // no view mashing), number of views divisible by 4, no TOF.  All bins x 32 switch combinations (section A: effective
+  // switches, basic bins and operations against the model, whose guard is evaluated on the voxel sizes; section C: rows
+  // derived by the symmetries against directly computed ones).
+  std::vector<shared_ptr<Geo>> aniso;
+  {
+    static const float dxys[] = { 2.F, .04F, .01F, .0025F, .0015F };
+    static const int Ns[] = { 16, 8, 24 };
+    int k = 0;
+    for (float d : dxys)
+      for (int sign = -1; sign <= 1; sign += 2, ++k)
+        {
+          GeoSpec a;
+          a.N = thorough ? Ns[rng.range(0, 2)] : Ns[k % 3];
+          a.R = 2;
+          a.max_delta = 1;
+          a.ntang = a.N / 2 - 1;
+          a.arc = k % 4 == 3;
+          a.zoom = k % 5 == 2 ? 2.F : 1.F;
+          a.dnx = a.dny = -(k % 2); // odd and even image sizes
+          a.m = 1 + k % 2;
+          a.dxy = sign * d;
+          aniso.push_back(build_geo(a, next_id++));
+        }
+    // ... and as ratios, with the voxel size limiting the field of view in x or in y
+    static const float ratios[] = { 1.1F, 1 / 1.1F };
+    for (float r : ratios)
+      {
+        GeoSpec a;
+        a.R = 2;
+        a.max_delta = 1;
+        a.aniso = r;
+        a.same_nxy = true;
+        aniso.push_back(build_geo(a, next_id++));
+      }
+    for (auto& g : aniso)
+      full.push_back(g);
+  }
+
   std::vector<shared_ptr<Geo>> sampled; // special cases, sampled bins
   {
     GeoSpec a; // view offset: no 90/180 degree symmetries
@@ -1413,6 +1549,17 @@ main(int argc, char** argv)
   }
   for (int k = 0; k < (thorough ? 30 : 4); ++k)
     sampled.push_back(build_geo(random_spec(rng, false), next_id++));
+  {
+    // voxels of about 2 mm (a tenth of the bin size), x/y ratios 1.1 and 1.002 either way: all beyond the guard's threshold
+    static const float ratios[] = { 1.1F, 1 / 1.1F, 1.002F, 1 / 1.002F };
+    for (int k = 0; k < (thorough ? 4 : 2); ++k)
+      {
+        GeoSpec a;
+        a.zoom = 10.F;
+        a.aniso = ratios[thorough ? k : 2 * rng.range(0, 1) + k];
+        sampled.push_back(build_geo(a, next_id++));
+      }
+  }
 
   // ---- section A
   for (auto& g : full)
@@ -1472,6 +1619,8 @@ main(int argc, char** argv)
 
   // ---- section B (histories): geometry groups that differ in one aspect only
   shared_ptr<Geo> g_a2, g_a7;
+  std::vector<shared_ptr<Geo>> groupT1, groupT2;
+  std::vector<std::vector<shared_ptr<Geo>>> groupTR;
   {
     std::vector<shared_ptr<Geo>> group1, group2, group3, group4, groupI;
     GeoSpec a;
@@ -1518,11 +1667,86 @@ main(int argc, char** argv)
     groupI.push_back(full[1]);
     groupI.push_back(g_a2);
     std::vector<shared_ptr<Geo>> bad = { sampled[5] }; // z origin not a whole number of planes
-    for (auto* grp : { &group1, &group2, &group3, &group4, &groupI, &bad })
+    // data contained in other data (index ranges reduced on a clone, same image): groupT1 span 1 (5 rings, 4 views),
+    // groupT2 span 3 (5 rings, 6 views); member 0 is the unreduced one
+    {
+      GeoSpec t1;
+      t1.N = 8;
+      t1.R = 5;
+      t1.max_delta = 2;
+      t1.ntang = 3;
+      t1.m = 2;
+      GeoSpec t2;
+      t2.N = 12;
+      t2.R = 5;
+      t2.span = 3;
+      t2.max_delta = 4;
+      t2.ntang = 5;
+      t2.dnx = t2.dny = -1;
+      groupT1.push_back(build_geo(t1, next_id++));
+      groupT2.push_back(build_geo(t2, next_id++));
+      auto red = [&](std::vector<shared_ptr<Geo>>& grp, int trim_seg, int lo, int hi, int seg_cut, int tang_lo, int tang_hi) {
+        GeoSpec r = grp[0]->sp;
+        r.trim_seg = trim_seg;
+        r.trim_lo = lo;
+        r.trim_hi = hi;
+        r.seg_cut = seg_cut;
+        r.tang_lo = tang_lo;
+        r.tang_hi = tang_hi;
+        grp.push_back(build_geo(r, next_id++));
+      };
+      red(groupT1, -1, 0, 2, 0, 0, 0); // 1: the last two axial positions of every segment removed
+      red(groupT1, -1, 2, 0, 0, 0, 0); // 2: the first two
+      red(groupT1, -1, 1, 1, 0, 0, 0); // 3: one at each end (the same LORs under other axial position numbers ... none: min stays the reference)
+      red(groupT1, 0, 0, 2, 0, 0, 0);  // 4: segment 0 only
+      red(groupT1, 1, 2, 0, 0, 0, 0);  // 5: segments +-1 only, lower end
+      red(groupT1, -1, 0, 0, 1, 0, 0); // 6: outer segments removed
+      red(groupT1, -1, 0, 0, 0, 1, 0); // 7: fewer tangential positions (one end)
+      red(groupT1, -1, 0, 2, 1, 0, 1); // 8: combination: contained in 1, 6 and (but for the tangential end) 7
+      red(groupT1, -1, 0, 4, 1, 0, 1); // 9: contained in 8
+      red(groupT1, -1, 0, 1, 0, 0, 0); // 10: an odd number of axial positions removed (LORs half a ring spacing off the usual positions)
+      red(groupT2, -1, 0, 2, 0, 0, 0); // 1
+      red(groupT2, 0, 2, 0, 0, 0, 0);  // 2: segment 0 only, lower end
+      red(groupT2, 1, 2, 2, 0, 1, 1);  // 3: segments +-1 at both ends, fewer tangential positions at both ends
+      red(groupT2, -1, 0, 4, 1, 0, 0); // 4: contained in 1
+      for (int k = 0; k < (thorough ? 12 : 2); ++k)
+        {
+          // generated: a base geometry (non-TOF or TOF) and one or two successive reductions of it
+          std::vector<shared_ptr<Geo>> chain;
+          GeoSpec b = random_spec(rng, true);
+          b.R = std::max(b.R, 4);
+          if (b.max_delta == b.R - 2)
+            b.max_delta = b.R - 1;
+          chain.push_back(build_geo(b, next_id++));
+          GeoSpec r = b;
+          for (int j = 0; j < 2; ++j)
+            {
+              r.trim_seg = rng.range(0, 2) == 0 ? rng.range(0, 1) : -1;
+              const int step = b.span == 1 && rng.range(0, 3) == 0 ? 1 : 2;
+              r.trim_lo += step * rng.range(0, 1);
+              r.trim_hi += step * rng.range(0, 1);
+              if (r.trim_lo + r.trim_hi == (j == 0 ? 0 : chain.back()->sp.trim_lo + chain.back()->sp.trim_hi))
+                r.trim_hi += 2;
+              r.seg_cut += rng.range(0, 2) == 0 ? 1 : 0;
+              r.tang_hi += rng.range(0, 2) == 0 ? 1 : 0;
+              if (j == 1)
+                r.trim_seg = chain.back()->sp.trim_seg; // (contained in the first reduction)
+              chain.push_back(build_geo(r, next_id++));
+            }
+          groupTR.push_back(chain);
+        }
+    }
+    std::vector<shared_ptr<Geo>> groupTRflat;
+    for (auto& ch : groupTR)
+      for (auto& g : ch)
+        groupTRflat.push_back(g);
+    for (auto* grp : { &group1, &group2, &group3, &group4, &groupI, &bad, &groupT1, &groupT2, &groupTRflat })
       {
         for (auto& g : *grp)
           std::fprintf(ops, "pgeo %d %d %d %s\n", g->id, g->eqclass, actual_boundaries_effective(*g) ? 1 : 0, g->tokens.c_str()), std::fprintf(out, "ok\n");
         // no two members of a group may be the same geometry (equal projection data, voxel size, origin and index range)
+        // (the generated chains of section F may repeat one: it is left out there)
+        if (grp != &groupTRflat)
         for (auto& g : *grp)
           for (auto& o : *grp)
             if (g->id != o->id && g->eqclass == o->eqclass)
@@ -1539,6 +1763,41 @@ main(int argc, char** argv)
       history(groupI, rng, thorough ? 200 : 100, 1);
     // error branch of set_up: z origin not a whole number of planes
     history(bad, rng, 1);
+    // random histories over data that contain one another
+    for (int h = 0; h < (thorough ? 60 : 6); ++h)
+      history(h % 2 ? groupT2 : groupT1, rng, thorough ? 300 : 160);
+    for (int h = 0; h < (thorough ? 10 : 1); ++h)
+      history(groupT1, rng, 100, 1);
+  }
+
+  // ---- section F: set_up for contained / containing data on one object, every row afterwards
+  {
+    auto G = [](const shared_ptr<Geo>& g) { return g.get(); };
+    const int stride = thorough ? 2 : 3;
+    for (std::size_t k = 1; k < groupT1.size(); ++k)
+      {
+        section_F({ G(groupT1[0]), G(groupT1[k]) }, rng, 0, stride);
+        section_F({ G(groupT1[k]), G(groupT1[0]) }, rng, 0, stride);
+      }
+    for (std::size_t k = 1; k < groupT2.size(); ++k)
+      {
+        section_F({ G(groupT2[0]), G(groupT2[k]) }, rng, 0, stride);
+        section_F({ G(groupT2[k]), G(groupT2[0]) }, rng, 0, stride);
+      }
+    // chains: each contained in the one before, and back
+    section_F({ G(groupT1[0]), G(groupT1[1]), G(groupT1[8]), G(groupT1[9]) }, rng, 0, stride);
+    section_F({ G(groupT1[9]), G(groupT1[8]), G(groupT1[6]), G(groupT1[0]) }, rng, 0, stride);
+    section_F({ G(groupT2[0]), G(groupT2[1]), G(groupT2[4]), G(groupT2[1]) }, rng, 0, stride);
+    for (auto& ch : groupTR)
+      {
+        section_F({ G(ch[0]), G(ch[1]), G(ch[2]) }, rng, 0, stride);
+        section_F({ G(ch[2]), G(ch[0]) }, rng, 0, stride);
+      }
+    // the interpolating matrix (its set_up has no short cut)
+    section_F({ G(groupT1[0]), G(groupT1[1]) }, rng, 1, stride);
+    section_F({ G(groupT1[5]), G(groupT1[0]) }, rng, 1, stride);
+    if (thorough)
+      section_F({ G(groupT2[0]), G(groupT2[1]), G(groupT2[4]) }, rng, 1, stride);
   }
 
   // ---- section E
